@@ -535,6 +535,33 @@ theorem scaled_not_scale_invariant_when_clamped :
       = .ok (.raw 1 [9007199254740992]) := by
   decide +kernel
 
+/-- The flat-training-series floor is a floor at eps and nothing else: for all four scaled errors and the relative loss
+(`scaled` and `relativeLoss` build their result with `ratioOut` / `ratioVals`), every shape and option, each reported
+ratio is `loss / reference` as soon as the reference loss (the in-sample naive error) is at least eps — however small
+the unit of the data — and `loss / eps` only strictly below eps. -/
+theorem scaled_floor_only_below_eps (eps : Rat) (k : Nat) (num den : Out) :
+    ratioVals eps num den
+      = List.zipWith (fun a b => if b < eps then a / eps else a / b) num.perCol den.perCol ∧
+    (ratioOut eps k num den).qs = ratioVals eps num den := by
+  refine ⟨?_, by cases num <;> rfl⟩
+  unfold ratioVals
+  congr 1
+  funext a b
+  unfold maxR
+  split <;> rfl
+
+/-- series quoted in units of 2^-20 (naive MSE 73/6·2^-40 ≈ 1.1e-11, far above EPS, below 1e-8): same RMSSE radicand
+and same MASE as for the series in units of 1 -/
+example : meanSquaredScaledError EPS (scaleMat (1/1048576) [[3, -1/2, 2]]) (scaleMat (1/1048576) [[5/2, 0, 2]])
+      (.arr (scaleMat (1/1048576) [[5, 1/2, 4, 6]])) none 1 none .raw true
+    = meanSquaredScaledError EPS [[3, -1/2, 2]] [[5/2, 0, 2]] (.arr [[5, 1/2, 4, 6]]) none 1 none .raw true ∧
+    meanSquaredScaledError EPS [[3, -1/2, 2]] [[5/2, 0, 2]] (.arr [[5, 1/2, 4, 6]]) none 1 none .raw true
+      = .ok (.raw 2 [1/73]) := by decide +kernel
+
+example : meanAbsoluteScaledError EPS (scaleMat (1/1099511627776) [[3, -1/2, 2]]) (scaleMat (1/1099511627776) [[5/2, 0, 2]])
+      (.arr (scaleMat (1/1099511627776) [[5, 1/2, 4, 6]])) none 1 (some [1, 2, 1]) .raw
+    = .ok (.raw 1 [9/80]) := by decide +kernel
+
 /-! ## 8. Geometric means = textbook (weighted) geometric mean of the floored relative errors -/
 
 /-- GMRAE / GMRSE, per output column: the radicand is `Π_i x_i` (no weights) resp. `Π_i x_i ^ a_i` (horizon weights) over
